@@ -131,11 +131,12 @@ class _K:
 
 
 class CFG:
-    def __init__(self, func_node, inline=None):
+    def __init__(self, func_node, inline=None, predicates=True):
         """inline: optional callable(call node, enclosing FunctionDef) -> FunctionDef of a private helper whose body is
         spliced in at the call statement (returns continue after the call, exceptions go to the caller's handlers)."""
         self.func = func_node
         self.inline = inline
+        self.predicates = predicates  # expand calls of private predicate helpers in conditions
         self.inlined_defs = []  # FunctionDef nodes whose bodies were spliced in
         self._inline_stack = [func_node]
         self.g = nx.DiGraph()
@@ -411,7 +412,7 @@ class CFG:
                     self._no_exc -= 1
         if isinstance(expr, ast.Call) and isinstance(expr.func, ast.Name) and expr.func.id == 'bool' and len(expr.args) == 1 and not expr.keywords:
             return self._cond(expr.args[0], preds, k, _expanding)   # bool(x) branches like x
-        if isinstance(expr, ast.Call) and self.inline is not None and k.depth < 3 and id(expr) not in _expanding:
+        if isinstance(expr, ast.Call) and self.inline is not None and self.predicates and k.depth < 3 and id(expr) not in _expanding:
             # a private predicate helper (`if not a: return False ... return c`) branches like the expression it computes
             target = self.inline(expr, self._inline_stack[-1])
             if target is not None and not any(target is f_ for f_ in self._inline_stack):
@@ -712,8 +713,8 @@ class CFG:
 _CFG_CACHE: Dict[Tuple, CFG] = {}
 
 
-def cfg_of(func_info, inline=None) -> CFG:
-    key = (id(func_info.node), inline is not None)
+def cfg_of(func_info, inline=None, predicates=True) -> CFG:
+    key = (id(func_info.node), inline is not None, predicates)
     if key not in _CFG_CACHE:
-        _CFG_CACHE[key] = CFG(func_info.node, inline)
+        _CFG_CACHE[key] = CFG(func_info.node, inline, predicates)
     return _CFG_CACHE[key]
